@@ -47,17 +47,9 @@ def rule_facts(ct, fx, world, unit_crate):
     return out
 
 
-def run(ctx):
-    thorough = ctx.tier == "thorough"
-    optunit = "fx_options" if thorough else "fx_options_q"
-    units = ["core", "fx_ops", "fx_rawrep", "fx_boxing", optunit]
-    fs = facts.load(*units)
-    gen = fs["pest_typed_generator"]
-    world = nodes.World(fs, ["pest_typed"])
-    ctx.analysed = {"crates": ["pest_typed_generator", "fx_ops", "fx_rawrep", "fx_boxing", optunit]}
-
-    # ---- determinism
-    rd = ctx.rule("R20-DET", "the generator never iterates a hash-ordered collection, and touches clock / thread / environment only where paths are read")
+def det_findings(gen, env_ok):
+    """(category, key, message, loc) for every construct that can make the generator's output differ between runs."""
+    out = []
     n_calls = 0
     for fid in sorted(gen.bodies):
         if "::tests::" in fid:
@@ -73,22 +65,50 @@ def run(ctx):
             if n["k"] == "mcall" and n["recv"].get("ty") is not None:
                 recv_ty = gen.tys(n["recv"]["ty"])
             if any(t in p or t in recv_ty for t in NONDET_TYPES) and nm in ITER_METHODS:
-                rd.violate("hash iteration in " + fid, "iterates a HashMap/HashSet (%s): emitted token order may differ between runs" % p, gen.src_loc(n))
+                out.append(("hash-iter-call", "hash iteration in " + fid, "iterates a HashMap/HashSet (%s): emitted token order may differ between runs" % p, gen.src_loc(n)))
             if p.startswith(("std::time::", "std::thread::", "rand::", "std::process::id")):
-                rd.violate("nondeterministic call in " + fid, "call to %s" % p, gen.src_loc(n))
-            if p.startswith("std::env::") and fid not in ENV_OK:
-                rd.violate("env access in " + fid, "call to %s outside the path-collection helpers" % p, gen.src_loc(n))
+                out.append(("clock", "nondeterministic call in " + fid, "call to %s" % p, gen.src_loc(n)))
+            if p.startswith("std::env::") and fid not in env_ok:
+                out.append(("env", "env access in " + fid, "call to %s outside the path-collection helpers" % p, gen.src_loc(n)))
         for n in walk(gen.body(fid)["value"]):
             if n["k"] == "match" and n.get("src") == "for":
                 it = n["scrut"]["args"][0] if n["scrut"].get("args") else None
                 ty = gen.tys(it.get("ty")) if it is not None and it.get("ty") is not None else ""
                 if any(t in ty for t in NONDET_TYPES):
-                    rd.violate("hash iteration in " + fid, "`for` over %s" % ty[:80], gen.src_loc(n))
+                    out.append(("hash-iter-for", "hash iteration in " + fid, "`for` over %s" % ty[:80], gen.src_loc(n)))
     for it in gen.item_list:
         if it["kind"].startswith("Static") and "::tests::" not in it["id"]:
-            rd.violate("static " + it["id"], "static item in the generator: output may depend on earlier expansions", gen.loc(it.get("sp")))
+            out.append(("static", "static " + it["id"], "static item in the generator: output may depend on earlier expansions", gen.loc(it.get("sp"))))
+    return out, n_calls
+
+
+def run(ctx):
+    thorough = ctx.tier == "thorough"
+    optunit = "fx_options" if thorough else "fx_options_q"
+    units = ["core", "fx_ops", "fx_rawrep", "fx_boxing", optunit]
+    fs = facts.load(*units)
+    gen = fs["pest_typed_generator"]
+    world = nodes.World(fs, ["pest_typed"])
+    ctx.analysed = {"crates": ["pest_typed_generator", "fx_ops", "fx_rawrep", "fx_boxing", optunit]}
+
+    # ---- determinism
+    rd = ctx.rule("R20-DET", "the generator never iterates a hash-ordered collection, and touches clock / thread / environment only where paths are read")
+    findings, n_calls = det_findings(gen, ENV_OK)
+    for cat, key, msg, loc in findings:
+        rd.violate(key, msg, loc)
+    # positive control: each scanner must fire on the construct it exists to find (fixtures/fx_controls)
+    try:
+        ctl = facts.load("fx_controls")["fx_controls"]
+        got = {cat for cat, _, _, _ in det_findings(ctl, ())[0]}
+        for cat in ("hash-iter-call", "hash-iter-for", "clock", "env", "static"):
+            if cat in got:
+                rd.inst("control: " + cat, None, "scanner fires on fixtures/fx_controls", nontrivial=False)
+            else:
+                rd.violate("control: " + cat, "the %s scanner does not fire on its positive control (fixtures/fx_controls): its silence on the generator is no evidence" % cat)
+    except facts.BuildFailed as ex:
+        rd.violate("control", "fixtures/fx_controls does not build: %s" % str(ex)[:200])
     rd.inst("pest_typed_generator: %d resolved calls scanned" % n_calls, None, "ok", {"hash_typed_values": sum(1 for t in gen.types if any(x in t["s"] for x in NONDET_TYPES))})
-    rd.require(1, "scan")
+    rd.require(6, "scan + controls")
 
     # ---- sibling generators
     rg = ctx.rule("R20-GENSIB", "impl Generate for Rule (pest_optimizer = false) and for OptimizedRule translate every shared operator identically "
